@@ -71,11 +71,14 @@ fn main() {
                 } else {
                     String::new()
                 };
+                // C03 observes `unsafe` through forbid(unsafe_code) in its own family; elsewhere a generator that
+                // emits `unsafe` must still be runnable so that the other properties can be judged
+                let forbid = if flags.contains("typesonly") { "#![forbid(unsafe_code)]" } else { "#![allow(unsafe_code)]" };
                 let _ = writeln!(
                     cases,
                     "#[allow(non_snake_case, non_camel_case_types, unused_imports, dead_code, clippy::all)]\n\
                      pub mod g_{id} {{\n\
-                         pub mod grammar {{ #![forbid(unsafe_code)] include!(concat!(env!(\"OUT_DIR\"), \"/{id}.rs\")); }}\n\
+                         pub mod grammar {{ {forbid} include!(concat!(env!(\"OUT_DIR\"), \"/{id}.rs\")); }}\n\
                          pub mod user {{ #![allow(unused)] use super::grammar::*; pub use verif_common::oracles::*; {user_inc} }}\n\
                          {mac}\n\
                          pub fn run(gid: &str, input: &str, ind: bool) -> String {{ {call} }}\n\
